@@ -299,7 +299,7 @@ func (x *VC) fact(cond string) {
 	if cond == "true" {
 		return
 	}
-	if x.noName > 0 && strings.Contains(cond, "q_") {
+	if x.noName > 0 && strings.Contains(cond, "qv$") {
 		return
 	}
 	x.emit("(assert " + cond + ")")
